@@ -97,7 +97,7 @@ func openSysDB(dir string, o sysOpts) (*badger.DB, error) {
 		WithNumLevelZeroTablesStall(2000).WithMemTableSize(memSize(o)).WithValueLogFileSize(1 << 20).
 		WithNumVersionsToKeep(o.NKeep).WithDetectConflicts(o.Detect).WithMaxLevels(o.MaxLevels).
 		WithBaseTableSize(o.TableSize).WithBaseLevelSize(o.BaseLevelSize).WithLevelSizeMultiplier(2).
-		WithNumMemtables(8).WithBlockSize(64).WithMetricsEnabled(false).WithCompactL0OnClose(false)
+		WithNumMemtables(8).WithBlockSize(64).WithMetricsEnabled(false).WithCompactL0OnClose(false).WithBlockCacheSize(1 << 20)
 	if !o.InMemory {
 		opt = opt.WithValueThreshold(o.VThreshold)
 	} else {
